@@ -153,6 +153,8 @@ def _call_law(law, ch, res, skip, target):
         sig, msg = d.sig, d.msg
     except HarnessError:
         raise
+    except MemoryError as e:
+        raise HarnessError(f"out of memory: {e}") from None
     except RecursionError as e:
         sig, msg = "raises:RecursionError", "unbounded recursion"
     except Exception as e:
